@@ -16,7 +16,8 @@ place=${place%/}
 mkdir -p $wt/$place
 cp $src/demo_test.go $wt/$place/zz_demo_test.go
 tname=$(grep -m1 -oE 'func (TestDemo[A-Za-z0-9_]+)' $src/demo_test.go | awk '{print $2}')
-rundemo() { (cd $wt && timeout 300 go test -vet=off -count=1 -run "^${tname}\$" ./$place >/tmp/cw_demo.$$ 2>&1); echo $?; }
+RACE=""; grep -qi "go test -race" $src/NOTES.md $src/demo_test.go 2>/dev/null && RACE="-race"
+rundemo() { (cd $wt && timeout 600 go test $RACE -vet=off -count=1 -run "^${tname}\$" ./$place >/tmp/cw_demo.$$ 2>&1); echo $?; }
 demo_clean=$(rundemo)
 if git -C $wt apply --check $src/patch.diff 2>/dev/null; then apply=ok; git -C $wt apply $src/patch.diff; else apply=FAIL; fi
 if (cd $wt && go build ./... >/dev/null 2>&1); then build=ok; else build=FAIL; fi
